@@ -341,6 +341,9 @@ func faultTable() []faultCase {
 	addT("Template/native-panic", tmplRun{files: one("i.html", "a{% boom() %}b"), name: "i.html"}, pe+"native panic$")
 	addT("Template/markdown-partial-without-converter", tmplRun{files: scriggo.Files{"index.html": []byte(`<p>{{ render "p.md" }}</p>`), "p.md": []byte("# t\n")}, name: "index.html"}, "^nil$")
 	mark("Template/markdown-partial-without-converter", "host-panic:no-markdown-converter", "no Markdown convert available")
+	addT("Template/default-global-in-macro", tmplRun{files: one("i.html", "{% macro M %}{{ x default 5 }}{% end %}{{ M() }}"), name: "i.html",
+		globals: native.Declarations{"x": (*int)(nil)}, vars: map[string]any{"x": 7}}, "^nil$")
+	mark("Template/default-global-in-macro", "host-panic:default-global-in-macro", "index out of range [0] with length 0")
 	raw("Text/write-error", "OpText", "out", "", false)
 	raw("Show/write-error", "OpShow", "out", "", false)
 	raw("Show/unshowable-html", "OpShow", "out", "", false)
